@@ -260,7 +260,7 @@ func (w *world) doStep() bool {
 			pending = append(pending, u)
 		}
 	}
-	kind := core.Pick(r, []string{"login-old", "login-new", "agree", "agree", "set-info", "set-info", "set-info", "set-user", "set-user", "disconnect", "pm", "pm"})
+	kind := core.Pick(r, []string{"login-old", "login-new", "agree", "agree", "set-info", "set-info", "set-info", "set-user", "set-user", "disconnect", "vanish", "pm", "pm"})
 	if len(pending) > 0 && r.Chance(1, 2) {
 		kind = "agree"
 	}
@@ -384,6 +384,26 @@ func (w *world) doStep() bool {
 		u.cl.Hangup()
 		u.connected, u.completed = false, false
 		w.log = append(w.log, fmt.Sprintf("client %d disconnects (id %d)", u.idx, u.id))
+	case "vanish":
+		// a user's machine disappears: first the server's writes to it start failing (a broadcast is provoked to make
+		// one happen), only then does its read side see the end of the stream. The others must still be told it left.
+		var cands []*muser
+		for _, u := range done {
+			if u.idx != 0 {
+				cands = append(cands, u)
+			}
+		}
+		if len(cands) == 0 {
+			return true
+		}
+		u := core.Pick(r, cands)
+		w.srv.Quiesce(refclient.Watchdog)
+		u.cl.Conn.SetWriteLimit(1 + r.Intn(20))
+		w.users[0].cl.Call(304, rc.FS(102, w.users[0].name), rc.F(104, rc.U16(w.users[0].icon)))
+		w.srv.Quiesce(refclient.Watchdog)
+		u.cl.Hangup()
+		u.connected, u.completed = false, false
+		w.log = append(w.log, fmt.Sprintf("client %d vanishes (id %d): writes to it fail, then its stream ends", u.idx, u.id))
 	case "pm":
 		from, to := core.Pick(r, done), core.Pick(r, done)
 		if !rc.BitSet(from.bits, 40) {
